@@ -79,6 +79,30 @@ def visibility(arr, conn):
     conn.close()
 
 
+def relay(method, val, dbl, conn):
+    """middle process of a two-hop hand-over: it only *received* the shared objects, and hands them
+    on to a process of its own (same start method)"""
+    import billiard
+    ctx = billiard.get_context(method)
+    with val.get_lock():
+        val.value += 100
+    p = ctx.Process(target=relay_end, args=(val, dbl))
+    p.start()
+    p.join(30)
+    with val.get_lock():
+        val.value += 100
+    conn.send(p.exitcode)
+    conn.close()
+
+
+def relay_end(val, dbl):
+    for _ in range(50):
+        with val.get_lock():
+            val.value += 1
+    with dbl.get_lock():
+        dbl.value += 0.5
+
+
 def _us():
     return int(time.monotonic() * 1e6)
 
@@ -264,12 +288,18 @@ class Holder:
         return self.inner
 
 
-def mgr_appender(lst, d, val, lock, n, who):
+def mgr_appender(lst, d, val, lock, n, who, errs=None):
+    d[('id', who)] = who
     for k in range(n):
         lst.append((who, k))
         d[(who, k)] = k
         with lock:
             val.value = val.value + 1
+        if errs is not None:
+            # a reply that only this client can be owed: nobody else asks for this key
+            got = d.get(('id', who))
+            if got != who:
+                errs.append((who, k, repr(got)[:40]))
 
 
 def slow(x, d=0.05):
